@@ -86,3 +86,26 @@ Theorem C12_disc_agree_implies_spec_ok : forall s hprefix b endpoint h pt o,
   disc_agrees s hprefix b endpoint o = true -> disc_spec_ok b o = true.
 Proof. exact disc_agree_implies_spec_ok. Qed.
 Print Assumptions C12_disc_agree_implies_spec_ok.
+
+(** ** The verdict on observations tolerates read-only calls, and only those
+
+    The statement fixes which backend operation a request reaches, with which
+    path, and where none is reached; it does not fix the sequence of read-only
+    lookups an implementation makes on the way.  The executable specification
+    therefore judges a trace up to [tolerable] calls: operations that cannot
+    change the backend (Get…, List…, Query…, the current-user lookups) whose path
+    argument is the request path unchanged (or that take none).  What the model
+    does — the exact verdict of [C12_routing] — implies the tolerant one, and the
+    tolerant one means: the table's operation occurs in the trace with the
+    request path, preceded by tolerable calls only. *)
+Theorem C12_exact_implies_tolerant : forall r path o,
+  routed_ok r path o = true -> routed_tol r path o = true.
+Proof. exact routed_ok_tol. Qed.
+Print Assumptions C12_exact_implies_tolerant.
+
+Theorem C12_tolerant_reach_spec : forall p wp path t,
+  reaches p wp path t = true <->
+  exists pre rest a, t = (pre ++ (p, a) :: rest)%list /\ a = (if wp then path else "") /\
+                     Forall (fun c => tolerable path c = true) pre.
+Proof. exact reaches_spec. Qed.
+Print Assumptions C12_tolerant_reach_spec.
